@@ -3,6 +3,7 @@ import GrinVerif.Model.Kv
 import GrinVerif.Model.KvSpace
 import GrinVerif.Model.KvResize
 import GrinVerif.Model.TxCount
+import GrinVerif.Model.KvGate
 import GrinVerif.Model.ChainStore
 /-! Driver glue for the `kv` domain (property C18): folds the model `GV.Kv.St` over the op lines
 of `harness/src/bin/kv.rs` and recomputes every answer.
@@ -40,6 +41,15 @@ by the driver only as their fingerprint (length + FNV-1a-32, computed without ma
 value), in a table sorted by key bytes: every sampled read and the final full iteration are
 compared; the map sizes of that run go through `rz-batch` (resize protocol model,
 `unbounded_growth_stays_aligned_and_sufficient`) and `needs-resize`.
+
+`kv gate-op <who> <kind> nested=<0|1> pending=<0|1> => ok|err:<kind>` and `kv gate-wait … =>
+blocked|direct|early|failed`: run `slowreader` — an operation (`exists`, `get_ser`, `iter`, `batch`) issued by
+a thread that is (`nested=1`) / is not inside a transaction of its own while a resize is / is not
+pending behind a transaction held open for seconds.  The model answer is one evaluation of the gate
+of the demanded shape (`GV.KvGate.gateOpOutcome enterExits`; `Props/C18.lean` `gate_has_no_failure_exit`
+pins the exits regenerated from the source to `enterExits`): the operation returns its sequential
+answer (`ok`, property-fixed: `cmpSpec`), after waiting for the release iff it is outside and the
+resize pending (`cmpModel`).  `rz-batch … => unobserved`: the meta page was not read after this batch.
 
 `kv space <map> <last_pg> <need> <chunk>`: run `frag` — the batch just executed could allocate at
 most `need` pages; if they fit behind the last page of the map `needs_resize` leaves, the batch
@@ -266,11 +276,17 @@ def handle (st : St) (args : List String) (impl : String) : St × Verdict :=
       let b := if settled = 1 then a else
         let r := batchStart e0 used same other
         if same = 0 then waiterStep { r with openTxs := 0 } else r
-      if impl = "dropped" then ({ st with rz := a }, .ok)
+      if impl = "dropped" || impl = "unobserved" then ({ st with rz := a }, .ok)
       else if toString a.mapSize = impl then ({ st with rz := a }, .ok)
       else if toString b.mapSize = impl then ({ st with rz := b }, .ok)
       else ({ st with rz := a }, .diff (toString a.mapSize))
     | _, _, _, _ => (st, .unknown)
+  | "gate-op" :: _who :: _kind :: rest => match kvArg rest "nested", kvArg rest "pending" with
+    | some n, some p => (st, cmpSpec (GV.KvGate.gateOpOutcome GV.KvGate.enterExits (n = 1) (p = 1)).1 impl)
+    | _, _ => (st, .unknown)
+  | "gate-wait" :: _who :: _kind :: rest => match kvArg rest "nested", kvArg rest "pending" with
+    | some n, some p => (st, cmpModel (GV.KvGate.gateOpOutcome GV.KvGate.enterExits (n = 1) (p = 1)).2 impl)
+    | _, _ => (st, .unknown)
   | ["cs-new", tip] => match parseHex tip with
     | some t => ({ m := {}, dbs := ChainStore.chainDbs, held := none, objs := [], genTip := t }, cmpSpec "ok" impl)
     | none => (st, .unknown)
